@@ -329,6 +329,21 @@ def gen_world(rng, tag, n_base=None, quantized_p=0.25, noref_p=0.15):
                 continue
             if e is None:
                 script.append(d)
+        # a unit given by a term  number x unit x unit**(+-1)  over units of the
+        # component types: the product / quotient of these two units is NOT that unit
+        # (seeded C17-i: operation cache pre-seeded from the definition, factor ignored)
+        if len(cdef) == 2 and cdef[0][1] == 1 and cdef[1][1] in (1, -1) and has_ref \
+                and rng.random() < 0.6:
+            ra = rng.choice([u for u in w.classes[cdef[0][0]]['units'] if w.scale(u) is not None])
+            rb = rng.choice([u for u in w.classes[cdef[1][0]]['units'] if w.scale(u) is not None])
+            num = rng.choice([['dec', '381/1250'], ['int', '60/1'], ['frac', '1/3']])
+            d = {'d': 'unit', 'cls': name, 'sym': f"{tag}d{i}t",
+                 'def': ['term', [[['n', num], 1], [['u', ra], 1], [['u', rb], cdef[1][1]]]]}
+            try:
+                if w.apply(d) is None:
+                    script.append(d)
+            except Exception:       # noqa
+                pass
     return script, w
 
 
@@ -427,8 +442,11 @@ def gen_history(rng, tag, n_steps=None, fault_p=0.3):
                 if rng.random() < 0.25:
                     d['quantum'] = rng.choice(['1/1', '1/8', '1/100'])
             if fault:
-                f = rng.choice(['dupdim', 'dupdim', 'dupdim-ref', 'dupsym', 'cancel', 'quantum-noref'])
+                f = rng.choice(['dupdim', 'dupdim', 'dupdim-ref', 'dupsym', 'cancel', 'cancel2',
+                                'quantum-noref'])
                 taken = [c for c in cs if not c['base']]
+                if f == 'cancel2' and not taken:
+                    f = 'cancel'
                 if f in ('dupdim', 'dupdim-ref') and taken:
                     d['def'] = [list(x) for x in rng.choice(taken)['cdef']]
                     d['quantum'] = None
@@ -438,6 +456,13 @@ def gen_history(rng, tag, n_steps=None, fault_p=0.3):
                 elif f == 'cancel':
                     d['def'] = [[ks[0], 1], [ks[0], -1]]
                     d['ref'], d['quantum'] = None, None
+                elif f == 'cancel2':
+                    # cancels only after normalisation: a derived type over its own components
+                    # (Area / Length**2), possibly with an own reference symbol (finding F23)
+                    t = rng.choice(taken)
+                    d['def'] = [[t['name'], 1]] + [[c, -e] for c, e in t['cdef']]
+                    d['quantum'] = None
+                    d['ref'] = fresh('r') if rng.random() < 0.5 else None
                 elif f == 'quantum-noref':
                     nr = [c['name'] for c in cs if c['base'] and c['ref'] is None]
                     if nr:
@@ -494,6 +519,17 @@ def gen_history(rng, tag, n_steps=None, fault_p=0.3):
             if reuse:
                 us = list(rng.choice(earlier)['units'])
             items = [[['u', u], e] for u, (_, e) in zip(us, c['cdef'])]
+            if rng.random() < 0.5:
+                # the same type through two DIFFERENT units (mi/(h*s) for Length/Duration**2):
+                # the general path of the term reduction (seeded C01-h)
+                for k, (u, (b, e)) in enumerate(zip(us, c['cdef'])):
+                    others = [x for x in w.classes[b]['units'] if x != u
+                              and (w.scale(x) is not None or w.classes[b]['ref'] is None)]
+                    if abs(e) >= 2 and others:
+                        sgn = 1 if e > 0 else -1
+                        items[k] = [['u', u], e - sgn]
+                        items.insert(k + 1, [['u', rng.choice(others)], sgn])
+                        break
             r = rng.random()
             if reuse and r < 0.7:
                 pass
